@@ -67,7 +67,7 @@ def gen_case0(rng, i):
     for _ in range(3):
         k = rng.randint(1, 4)
         cuts = sorted(rng.sample(range(0, Tn + 1), min(k + 1, Tn + 1)))
-        mode = rng.choice(['tiling', 'tiling', 'gaps', 'overlap', 'noend', 'single', 'offgrid'])
+        mode = rng.choice(['tiling', 'tiling', 'gaps', 'overlap', 'noend', 'single', 'offgrid', 'nested', 'nested_first', 'duplicate'])
         st = [pts[c] for c in cuts[:-1]] or [pts[0]]
         en = [pts[c] for c in cuts[1:]] or [pts[Tn]]
         if mode == 'gaps' and len(st) > 1:
@@ -76,6 +76,14 @@ def gen_case0(rng, i):
             en[0] = en[0] + step
         if mode == 'offgrid':
             st = [t + step / 4 for t in st]
+        if mode in ('nested', 'nested_first') and Tn >= 3:
+            # one interval strictly inside another one (an exception window and a default covering the whole period)
+            a = rng.randint(1, Tn - 2)
+            b = rng.randint(a + 1, Tn - 1)
+            inner, outer = (pts[a], pts[b]), (pts[0], pts[Tn])
+            st, en = ([inner[0], outer[0]], [inner[1], outer[1]]) if mode == 'nested' else ([outer[0], inner[0]], [outer[1], inner[1]])
+        if mode == 'duplicate':
+            st, en = [st[0], st[0]], [en[0], en[0]]
         for t in st + en:
             gen.check_safe(t, tz)
         d = {'start': [gen.fmt(t) for t in st], 'values': [gen.k8(rng, -5, 5) for _ in st], 'mode': mode}
@@ -161,6 +169,24 @@ def run(ctx):
             if r['status'] == 'error':
                 ctx.violation('impl-violation', {'spec': sp, 'ival': p, 'observed': r['error'], 'expected': 'values or ValueError(overlap)'}, trigger={'what': 'ival crash'})
                 continue
+            # oracle on the implementation, independent of the model: unique containing interval / None / overlap rejected
+            ctx.cov['impl_oracle_evaluations'] += 1
+            st = [M.inst(t, tz) for t in p['start']]
+            if 'end' in p:
+                en = [M.inst(t, tz) for t in p['end']]
+            elif len(st) == 1:
+                en = [None]
+            else:
+                en = st[1:] + [st[-1] + 2 * (st[-1] - st[-2])]
+            hits = [[k for k, (a, b) in enumerate(zip(st, en)) if a <= q and (b is None or q < b)] for q in tp]
+            overlap = any(len(h) > 1 for h in hits)
+            if overlap != (r['status'] == 'ValueError'):
+                ctx.violation('impl-violation', {'spec': sp, 'ival': p, 'observed': r['status'], 'expected': 'ValueError' if overlap else 'values'},
+                              trigger={'what': 'overlap handling'})
+            elif not overlap:
+                want = [p['values'][h[0]] if h else None for h in hits]
+                if want != r['values']:
+                    ctx.violation('impl-violation', {'spec': sp, 'ival': p, 'observed': r['values'], 'expected': want}, trigger={'what': 'interval value'})
             impl = 'None' if r['status'] != 'ok' else '(Some %s)' % C.lst(['None' if v is None else '(Some %s)' % C.q(v) for v in r['values']])
             exprs.append('[c19_ival_case %s %s %s]' % (C.lst([C.z(t) for t in tp]), M.param_term({k: v for k, v in p.items() if k != 'mode'}, sp, g), impl))
             owners.append((sp, 'values_to_grid', p))
